@@ -58,9 +58,16 @@ def _run(q):
     return q
 
 
-def run_queries(qs, workers=14):
+def run_queries(qs, workers=14, deadline=None):
+    """deadline: absolute time.time() after which queries that have not started are skipped
+    (status 'unknown', raw 'budget exhausted')"""
+    def guarded(q):
+        if deadline is not None and time.time() > deadline:
+            q.status, q.model, q.secs, q.raw = "unknown", {}, 0.0, "time budget of this tier exhausted before the query was started"
+            return q
+        return _run(q)
     with cf.ThreadPoolExecutor(max_workers=workers) as ex:
-        return list(ex.map(_run, qs))
+        return list(ex.map(guarded, qs))
 
 
 def record(res, q, replay=None):
